@@ -24,11 +24,13 @@ class BodyError(Exception):
 
 
 class Oracle:
-    def __init__(self, bits):
+    def __init__(self, bits, hook=0):
         self.bits = list(bits)
         self.n = 0
         self.log = []
         self.next_inst = 0
+        self.hook = hook          # bit c set: class c's initialisation fault fires in the machine's init() hook
+        self.held = {}            # class -> low-level resources acquired by _init_machine and not yet released
 
     def check(self):
         ident = self.n
@@ -42,18 +44,33 @@ O = None
 
 
 def mk_init(c, O):
+    """One check point per machine initialisation -- in the Initializer (before its yield) or, when the case says so,
+    in the machine's init() hook, the LAST step of Machine.__enter__ -- and one per teardown.  The model sees the
+    same thing either way (a machine whose __enter__ raised was never initialised); what the machine acquired before
+    the hook failed must have been released again, which the low-level `held` counter observes."""
     class Init(machine.Initializer):
         @contextlib.contextmanager
         def _init_machine(self):
-            O.check()
-            self._vid = O.next_inst
-            O.next_inst += 1
-            O.log.append([1, c, self._vid])
+            in_hook = bool(O.hook >> c & 1)
+            if not in_hook:
+                O.check()
+            O.held[c] = O.held.get(c, 0) + 1
+            self._born = False
             try:
                 yield None
             finally:
-                O.log.append([2, c, self._vid])
+                O.held[c] -= 1
+                if self._born:
+                    O.log.append([2, c, self._vid])
+                    O.check()
+
+        def init(self):
+            if O.hook >> c & 1:
                 O.check()
+            self._vid = O.next_inst
+            O.next_inst += 1
+            O.log.append([1, c, self._vid])
+            self._born = True
     Init.__name__ = f"Init{c}"
     return Init
 
@@ -196,7 +213,7 @@ def run_prog(p, ctx, raised):
 
 def run_case(case):
     global O
-    O = Oracle(case["faults"])
+    O = Oracle(case["faults"], case.get("hook", 0))
     classes = build_classes(O)
     ctx = tbot.Context(keep_alive=case["ka"], reset_on_error_by_default=case["roe"])
     for cls, role in zip(classes, ROLES):
@@ -217,6 +234,16 @@ def run_case(case):
         except BaseException as e:  # noqa
             outcome = [[98, type(e).__name__]]
     alive = [bool(ctx._instances[cls].is_alive()) for cls in classes]
+    # low-level resources: exactly the live instances hold one (event 97 is never produced by the model)
+    live = {}
+    for e in O.log:
+        if e[0] == 1:
+            live[e[1]] = live.get(e[1], 0) + 1
+        elif e[0] == 2:
+            live[e[1]] = live.get(e[1], 0) - 1
+    for c in range(len(classes)):
+        if O.held.get(c, 0) != live.get(c, 0):
+            O.log.append([97, c, O.held.get(c, 0)])
     # the CLeft event of the model is emitted after the request has been left, also when it raised:
     return [fix_left(O.log, case), outcome, alive]
 
